@@ -12,12 +12,13 @@ RULE = ("random Kauri fits: n 1..40, d 1..5, constant features, heavy ties, dupl
         "limits (max_depth 1..4/None, max_leaves 2..6/None, min_samples_split 2..17, min_samples_leaf 1..6 with 2*leaf<="
         "split, max_features 1..d/None, max_clusters 1..8), all named kernels + precomputed PSD / indefinite, seeds. The "
         "contract re-derives every clause from labels_, leaves_ and the tree_ arrays with its own router and objective. "
+        "30% of the fits are the second fit of one object on one array after a fit under another kernel and set_params; the kernel of the score reference is computed by the monitor; 30% of the scores are repeated after the array was changed in place. "
         "One evaluation = one fit. Non-trivial = the tree has >= 1 split; distinct by tree arrays + labels hash.")
 ASSUMPTIONS = ["native module rebuilt from _utils.cpp; thorough tier repeats a share of the fits on the ASan+UBSan build"]
 EVAL_COUNTER = "fits"
 REQUIRED = {"quick": {"fits": 1200, "fits_with_splits": 600, "limit_binding:max_leaves": 50, "limit_binding:max_depth": 50,
                       "limit_binding:max_clusters": 50, "small_n_vs_split": 30, "threshold_queries": 2000,
-                      "score_checked": 1000},
+                      "score_checked": 1000, "refit_histories": 150, "score_after_inplace_change": 120},
             "thorough": {"fits": 30000, "san:fits": 1000}}
 SHARD_TIMEOUT = {"quick": 1200, "thorough": 7000}
 
@@ -127,7 +128,12 @@ def check_tree(ctx, est, X, y, p, rng):
     ctx.count("threshold_queries", len(Q))
     need(np.array_equal(pq, rq), "predict-differs-from-leaf-region", {"n_diff": int(np.sum(pq != rq))})
     # score = objective of predicted labels
-    kernel = est._compute_kernel(X, y)
+    # the configured kernel, computed here and not by the estimator (which may hold on to an older matrix)
+    if p["kernel"] == "precomputed":
+        kernel = np.asarray(y, dtype=float)
+    else:
+        from sklearn.metrics import pairwise_kernels as _pk
+        kernel = _pk(np.array(X, copy=True), metric=p["kernel"])
     sc = float(est.score(X, y))
     want = ref.objective(pred, np.asarray(kernel, dtype=float)) if n <= 25 else ref.objective_fast(pred, np.asarray(kernel, dtype=float))
     ctx.count("score_checked")
@@ -138,6 +144,16 @@ def check_tree(ctx, est, X, y, p, rng):
         sq = float(est.score(Q))
         wq = ref.objective_fast(pq, Kq)
         need(abs(sq - wq) <= 1e-9 * max(1.0, len(Q) * float(np.max(np.abs(Kq)))), "score-fresh-not-objective", [sq, wq])
+        if rng.random() < 0.3 and X.flags.writeable and p["kernel"] not in ("chi2", "additive_chi2"):
+            # the same array object, other contents: score speaks about the data it is given now
+            ctx.count("score_after_inplace_change")
+            X *= -0.5
+            X += rng.normal(size=X.shape) * (float(np.max(np.abs(X))) or 1.0) * 0.3
+            p2 = np.asarray(est.predict(X))
+            K2 = pairwise_kernels(np.array(X, copy=True), metric=p["kernel"])
+            s2 = float(est.score(X))
+            w2 = ref.objective_fast(p2, K2)
+            need(abs(s2 - w2) <= 1e-9 * max(1.0, n * float(np.max(np.abs(K2)))), "score-stale-after-inplace-change", [s2, w2])
     return bad
 
 
@@ -152,6 +168,15 @@ def run_case(case, ctx, st):
             ctx.count("small_n_vs_split")
         est = Kauri(**p)
         try:
+            if p["kernel"] != "precomputed" and rng.random() < 0.3:
+                # a history on one object and one array: fit under another configuration first, then reconfigure
+                ks = [k for k in _kauri.gen.KERNELS if k not in ("chi2", "additive_chi2", p["kernel"])]
+                first = dict(p, kernel=ks[int(rng.integers(0, len(ks)))], max_clusters=int(rng.integers(1, 9)))
+                ctx.count("refit_histories")
+                est = Kauri(**first)
+                est.fit(X)
+                est.score(X)
+                est.set_params(**p)
             est.fit(X, y)
         except Exception as e:
             ctx.violation("fit-completes", f"kauri-fit-raises/{type(e).__name__}", observed={"exc": repr(e)[:300], "params": p, "n": n},
